@@ -1,5 +1,6 @@
 from __future__ import annotations
 
+import os
 from typing import Any, List
 
 import torch
@@ -16,6 +17,9 @@ from torchtree.core.utils import (
 )
 from torchtree.inference.mcmc.operator import MCMCOperator
 from torchtree.typing import ID
+
+# verification hook (off unless TORCHTREE_VERIF=1): one record per MCMC transition
+_VERIF_TRACE = [] if os.environ.get("TORCHTREE_VERIF") == "1" else None
 
 
 @register_class
@@ -101,6 +105,22 @@ class MCMC(Identifiable, Runnable):
                     acceptance_prob = min(torch.zeros_like(log_alpha), log_alpha).exp()
                     accepted = (acceptance_prob > torch.rand(1)).item()
 
+            if _VERIF_TRACE is not None:
+                _VERIF_TRACE.append(
+                    {
+                        "event": "decide",
+                        "iteration": self._epoch,
+                        "operator": index_operator,
+                        "hastings": float(hastings_ratio),
+                        "log_joint": float(log_joint),
+                        "log_joint_proposed": float(log_joint_proposed)
+                        if not torch.isinf(hastings_ratio)
+                        else None,
+                        "acceptance_prob": float(acceptance_prob),
+                        "accepted": bool(accepted),
+                    }
+                )
+
             if accepted:
                 log_joint = log_joint_proposed.clone()
                 accept += 1
@@ -122,6 +142,17 @@ class MCMC(Identifiable, Runnable):
                 logger.log(sample=self._epoch)
 
             operator.tune(acceptance_prob, sample=self._epoch, accepted=accepted)
+
+            if _VERIF_TRACE is not None:
+                _VERIF_TRACE.append(
+                    {
+                        "event": "tuned",
+                        "iteration": self._epoch,
+                        "operator": index_operator,
+                        "log_joint": float(log_joint),
+                        "tuning_parameter": float(operator.tuning_parameter),
+                    }
+                )
 
             if (
                 self.checkpoint is not None
